@@ -57,6 +57,16 @@ def enc(node, b):
     return derw.tlv(t, b[vo:vo + vl] if kids is None else b"".join(enc(k, b) for k in kids))
 
 
+def replace_value(cms, off, ln, new):
+    """the message with the primitive value at (off, ln) replaced by `new`, every enclosing length re-encoded"""
+    def rec(node):
+        t, _, vo, vl, kids = node
+        if kids is None:
+            return derw.tlv(t, new if (vo, vl) == (off, ln) else cms[vo:vo + vl])
+        return derw.tlv(t, b"".join(rec(k) for k in kids))
+    return rec(parse(cms)[0])
+
+
 def regions(cms, kind):
     """located value ranges: name -> [(off, len)]"""
     top = parse(cms)[0]; inner = top[4][1][4][0]; f = inner[4]
@@ -215,6 +225,16 @@ def body():
             outsider = [i for i in range(1, 7) if i not in m["R"]][0]
             fol(key + ":open:outsider", dict(base, op=dop, cms=cmshex, rkey=hx(W.d[outsider]), rcert=hx(W.cert[outsider]), prov="raw"), dict(rightkey=False, tampered=False, nsi=len(m["S"]), expect=expect))
             fol(key + ":open:recipient-cert-other-key", dict(base, op=dop, cms=cmshex, rkey=hx(W.d[outsider]), rcert=hx(W.cert[m["R"][0]]), prov="raw"), dict(rightkey=False, tampered=False, nsi=len(m["S"]), expect=expect))
+            # an encryptedKey that is a perfectly good SM2 ciphertext (made for this recipient) of something LONGER than a content-encryption key: the opener
+            # has 16..32 bytes of room for what comes out of it
+            for klen in ((33, 64, 255) if not m.get("light") else ()):
+                r0 = m["R"][0]
+                P0 = sm2ref.mul(int.from_bytes(W.d[r0], "big"), sm2ref.G)
+                C1, C2, C3 = sm2ref.encrypt(P0, rb(klen), rng.randrange(1, sm2ref.n))
+                big = derw.seq(derw.dint(C1[0]), derw.dint(C1[1]), derw.doctets(C3), derw.doctets(C2))
+                off0, ln0 = reg["enckey"][0]
+                fol(key + ":open:enckey-holds-%d-bytes" % klen, dict(base, op=dop, cms=hx(replace_value(cms, off0, ln0, big)), rkey=hx(W.d[r0]), rcert=hx(W.cert[r0]), prov="raw"),
+                    dict(rightkey=True, tampered=True, nsi=len(m["S"]), expect=expect))
             if op == "sign_and_envelop":
                 fol(key + ":open:zero-signer-infos", dict(base, op=dop, cms=hx(without_signer_infos(cms)), rkey=hx(W.d[m["R"][0]]), rcert=hx(W.cert[m["R"][0]]), prov="raw"), dict(rightkey=True, tampered=False, nsi=0, expect=expect))
         if m.get("wrongkey") or m.get("light"):
